@@ -13,14 +13,23 @@ ob = Registry()
 
 def expect_parts(c: Ctx):
     u = c.unit(SVC, 'EventBus.expect')
-    inner = [v for v in c.prog.nested(u) if not v.is_async]
-    if len(inner) != 1:
-        raise AnalysisError(f'expect: expected one nested temporary handler, found {len(inner)}')
-    h = inner[0]
-    regs = [n for n in own_nodes(u.node) if isinstance(n, ast.Call) and call_name(n) == 'on' and isinstance(n.func, ast.Attribute) and U(n.func.value) == u.params()[0] and len(n.args) == 2 and U(n.args[1]) == h.name]
+    nested = {v.name: v for v in c.prog.nested(u)}
+    regs = [n for n in own_nodes(u.node) if isinstance(n, ast.Call) and call_name(n) == 'on' and isinstance(n.func, ast.Attribute) and U(n.func.value) == u.params()[0] and len(n.args) == 2 and U(n.args[1]) in nested]
     if len(regs) != 1:
-        raise AnalysisError(f'expect: expected one registration self.on(<type>, {h.name}), found {len(regs)}')
+        raise AnalysisError(f'expect: expected one registration self.on(<type>, <nested temporary handler>), found {len(regs)}')
+    h = nested[U(regs[0].args[1])]
     return u, h, regs[0]
+
+
+def removal_helpers(c: Ctx, u: Unit, h: Unit) -> set[str]:
+    """Nested helpers of expect whose body removes the temporary handler from self.handlers (calling one counts as the removal)."""
+    out = set()
+    for v in c.prog.nested(u):
+        if v.key == h.key:
+            continue
+        if any(isinstance(x, ast.Call) and call_name(x) == 'remove' and x.args and U(x.args[0]) == h.name for x in own_nodes(v.node)):
+            out.add(v.name)
+    return out
 
 
 @ob('C18.1', 'PAIR', 'after the temporary handler is registered, every exit of expect (match, TimeoutError, cancellation at either await) passes its removal from self.handlers')
@@ -28,12 +37,15 @@ def c18_1(c: Ctx) -> None:
     u, h, reg = expect_parts(c)
     g = c.cfg(u)
     self_ = u.params()[0]
+    helpers = removal_helpers(c, u, h)
 
     def is_removal(n) -> bool:
         def rm(x):
             return isinstance(x, ast.Call) and call_name(x) == 'remove' and x.args and U(x.args[0]) == h.name and f'{self_}.handlers' in U(x.func.value)
 
         if any(rm(x) for x in q.node_calls(n)):
+            return True
+        if n.kind in ('stmt', 'return') and any(isinstance(x.func, ast.Name) and x.func.id in helpers for x in q.node_calls(n)):
             return True
         if n.kind == 'if' and any(rm(x) for b in n.ast.body for x in ast.walk(b)):
             conj = n.ast.test.values if isinstance(n.ast.test, ast.BoolOp) and isinstance(n.ast.test.op, ast.And) else [n.ast.test]
@@ -59,6 +71,11 @@ def c18_2(c: Ctx) -> None:
     self_ = u.params()[0]
     tparam = U(reg.args[0])
     rms = [n for n in own_nodes(u.node) if isinstance(n, ast.Call) and call_name(n) == 'remove' and n.args and U(n.args[0]) == h.name]
+    if not rms:
+        # the removal lives in a nested helper (closure): evaluate the key expression in expect's own scope
+        for v in c.prog.nested(u):
+            if v.key != h.key:
+                rms += [n for n in own_nodes(v.node) if isinstance(n, ast.Call) and call_name(n) == 'remove' and n.args and U(n.args[0]) == h.name]
     c.floor(len(rms), 1, 'removal of the temporary handler')
     recv = rms[0].func.value  # self.handlers[<key>]
     if not (isinstance(recv, ast.Subscript) and U(recv.value) == f'{self_}.handlers'):
@@ -75,8 +92,14 @@ def c18_2(c: Ctx) -> None:
             if st is rm_stmt:
                 seen.append(ai.ev(keyexpr, env))
 
+        # names defined in expect's own body (the key may be computed there and used by a nested helper)
+        snap: dict = {}
+        pre = AbsInt(on_stmt=lambda st, env: snap.update(env))
+        pre.run(u.node.body, {tparam: val})
+        env0 = {k: v for k, v in snap.items()}
+        env0[tparam] = val
         ai = AbsInt(on_stmt=on_stmt)
-        ai.run(block, {tparam: val})
+        ai.run(block, env0)
         if not seen:
             raise AnalysisError(f'expect: the removal statement was not reached when evaluating the cleanup block for pattern kind {desc}')
         got = seen[-1]
@@ -160,11 +183,23 @@ def c18_4(c: Ctx) -> None:
     else:
         c.fail(u, 'no wait_for(future, timeout)', 'expect() ignores its timeout')
     H = c.an.fm.h
+    from sa.cfg import search
+
     catchers = [a for a in own_nodes(u.node) if isinstance(a, ast.ExceptHandler) and H.match(TIMEOUT, handler_type_names(a)) != 'no']
-    if not catchers and any(t.name == 'TimeoutError' for t in c.an.escapes(u)):
-        c.ok(where(u), 'TimeoutError propagates to the caller (escape set contains it, no arm catches it)')
+    swallowing = []
+    for a in catchers:
+        inside = {id(x) for b in a.body for x in ast.walk(b)}
+        for en in [n for n in g.nodes_of(a, ('except',)) if n.exc is not None and n.exc.name == 'TimeoutError']:
+            p = search([(en, ())], is_target=lambda n, d: (n.ast is None or id(n.ast) not in inside) and n.kind not in ('raise_exit', 'reraise'), edge_ok=lambda n, e, d: None if e.is_exc else d)
+            if p is not None:
+                swallowing.append((a, en, p))
+    if not swallowing and any(t.name == 'TimeoutError' for t in c.an.escapes(u)):
+        c.ok(where(u), 'TimeoutError propagates to the caller (it is in the escape set; no arm swallows it)')
+    elif swallowing:
+        a, en, p = swallowing[0]
+        c.fail(u, f'`except {U(a.type) if a.type else ""}` swallows TimeoutError', 'expect() does not raise TimeoutError when nothing matches in time', node=a, witness=c.path(en, p))
     else:
-        c.fail(u, f'TimeoutError is caught inside expect ({len(catchers)} arms) or never raised', 'expect() does not raise TimeoutError when nothing matches in time')
+        c.fail(u, 'TimeoutError is never raised by expect', 'expect() does not raise TimeoutError when nothing matches in time')
 
 
 OBLIGATIONS = ob.obs
